@@ -1,6 +1,7 @@
 package props
 
 import (
+	"sort"
 	"os"
 	"fmt"
 	"github.com/jf-tech/omniparser/idr"
@@ -87,6 +88,11 @@ func runC14(c *Ctx) []Violation {
 		}
 	}
 	policy := c.T.Weighted("c14.policy", 3, 3, 1)
+	// whether the Schema values the tasks share are used for the first time when the tasks start
+	// (the serial reference then runs on twins made from the same bytes), or have been through a
+	// whole transform each before (the reference runs on the very values): what a schema sets up at
+	// first use is set up by several tasks at once in the first case
+	firstUseConcurrent := c.T.Bool("c14.first-use-is-concurrent")
 	c.T.End()
 	c.Count("tasks", int64(k))
 	c.Note("%d tasks over %d worlds; env %s; policy %d", k, nWorlds, env, policy)
@@ -94,9 +100,58 @@ func runC14(c *Ctx) []Violation {
 		c.Note("task %d: %s, plan %s", i, t.w.Name, t.plan.Mode)
 	}
 	// solo transcripts (the serial reference)
-	for _, t := range tasks {
+	if firstUseConcurrent {
+		c.Count("sharing.first-use-of-the-shared-schemas-is-concurrent", 1)
+	}
+	twins := map[omniparser.Schema]omniparser.Schema{}
+	// (instrumented flavour) the shared-state statements a serial run passes the first time a Schema
+	// value is used and not the second time: what a schema sets up at first use. Per task index.
+	firstUseSites := map[int][]int{}
+	for ti, t := range tasks {
 		rd := simio.NewReader(t.w.Input, t.plan)
-		t.solo = run.DriveSchema(t.schema, t.w, rd, run.Opts{MaxReads: 400, CustomParam: func() {}}, nil)
+		ss := t.schema
+		newTwin := false
+		if firstUseConcurrent {
+			if twins[ss] == nil {
+				tw, es, ps := run.NewSchema("sim-schema", t.w.Schema, ext)
+				if tw == nil {
+					panic("harness: world rejected the second time: " + es + ps)
+				}
+				twins[ss] = tw
+				newTwin = true
+			}
+			ss = twins[ss]
+		}
+		if newTwin && sched.Instrumented {
+			// (a throw-away twin goes first: what the *process* sets up at the first use of anything -
+			// validators, tables, caches - is then set up, whatever ran in this process before, and
+			// the sites found below belong to the Schema value alone; a replay in a fresh process
+			// finds the same ones)
+			if tw0, _, _ := run.NewSchema("sim-schema", t.w.Schema, ext); tw0 != nil {
+				run.DriveSchema(tw0, t.w, simio.NewReader(t.w.Input, t.plan), run.Opts{MaxReads: 400, CustomParam: func() {}}, nil)
+			}
+			first, second := map[int]bool{}, map[int]bool{}
+			sched.SiteRecorder = func(site int) { first[site] = true }
+			t.solo = run.DriveSchema(ss, t.w, rd, run.Opts{MaxReads: 400, CustomParam: func() {}}, nil)
+			sched.SiteRecorder = func(site int) { second[site] = true }
+			rd2 := simio.NewReader(t.w.Input, t.plan)
+			run.DriveSchema(ss, t.w, rd2, run.Opts{MaxReads: 400, CustomParam: func() {}}, nil)
+			sched.SiteRecorder = nil
+			var only []int
+			for site := range first {
+				if !second[site] {
+					only = append(only, site)
+				}
+			}
+			sort.Ints(only)
+			if len(only) > 0 {
+				firstUseSites[ti] = only
+				c.Count("first-use-only-shared-state-statements", int64(len(only)))
+			}
+			c.Events += int64(rd.Stats.Reads + len(t.solo.Entries))
+			continue
+		}
+		t.solo = run.DriveSchema(ss, t.w, rd, run.Opts{MaxReads: 400, CustomParam: func() {}}, nil)
 		c.Events += int64(rd.Stats.Reads + len(t.solo.Entries))
 	}
 	// concurrent pass under the seeded scheduler
@@ -104,6 +159,40 @@ func runC14(c *Ctx) []Violation {
 	s := sched.New(c.T)
 	s.Policy = policy
 	s.Soft = sched.DrawSoft(c.T, k)
+	if len(firstUseSites) > 0 && k >= 2 && c.T.Chance("c14.park-at-first-use", 3, 4) {
+		// one task is stopped at a statement that only the first use of its (shared, so far unused)
+		// Schema passes - in the middle of whatever the schema sets up lazily - and stays there while
+		// the others run: they meet it there, or go through their own first use of the same value with
+		// the set-up half done
+		var owners []int
+		for ti := range firstUseSites {
+			owners = append(owners, ti)
+		}
+		sort.Ints(owners)
+		// (the task whose serial run was recorded, or any other task sharing its Schema value)
+		rec := owners[c.T.Intn("c14.park.recorded", len(owners))]
+		var sharers []int
+		for ti, t := range tasks {
+			if t.schema == tasks[rec].schema {
+				sharers = append(sharers, ti)
+			}
+		}
+		owner := sharers[c.T.Intn("c14.park.owner", len(sharers))]
+		sites := firstUseSites[rec]
+		m := &sched.MeetCfg{Owner: owner}
+		for r, rounds := 0, 1+c.T.Intn("c14.park.rounds", 3); r < rounds; r++ {
+			m.Triggers = append(m.Triggers, 1)
+			m.Sites = append(m.Sites, sites[c.T.Intn("c14.park.site", len(sites))])
+			m.Spans = append(m.Spans, 8+c.T.Intn("c14.park.span", 120))
+			m.Strict = append(m.Strict, c.T.Bool("c14.park.strict"))
+		}
+		for i := range s.Soft {
+			s.Soft[i].Stride = 0
+			s.Soft[i].Meet = nil
+		}
+		s.Soft[0].Meet = m
+		c.Count("sched.owner-parked-at-a-first-use-only-statement", 1)
+	}
 	if sched.Instrumented && len(s.Soft) > 0 && s.Soft[0].SharedOnly {
 		c.Count("soft-yields.shared-state-files-only", 1)
 	}
